@@ -48,104 +48,108 @@ func (sp CapSpec) Region() string {
 type GroupKind struct {
 	Re   string
 	Vals []string
+	// Main: a String group over numeric characters only that belongs to the main
+	// stream all the same: mtail's own unit tests (types_test.go) and the
+	// documentation's wording fix its type as String (IP addresses, a lone sign).
+	Main bool
 }
 
 // curated groups.  Their types are NOT listed here: SpecCapType decides them
 // (the hand-annotated cross-check is capTypeTable).
 var richGroupKinds = []GroupKind{
 	// integers
-	{`\d+`, []string{"0", "7", "42", "007", "9223372036854775807", "9223372036854775808"}},
-	{`[0-9]+`, []string{"10", "0042"}},
-	{`-?\d+`, []string{"-7", "7", "-0", "-99999999999999999999"}},
-	{`[-+]?\d+`, []string{"+5", "-5", "5", "+007"}},
-	{`[+-]\d+`, []string{"+1", "-1"}},
-	{`\d{1,3}`, []string{"1", "12", "255"}},
-	{`\d\d`, []string{"07", "42"}},
-	{`[0-5]\d`, []string{"07", "59"}},
-	{`(?:\d+)`, []string{"3"}},
-	{`\d+?`, []string{"8"}},
-	{`0|[1-9]\d*`, []string{"0", "10"}},
-	{`-\d+|\d+`, []string{"-3", "3"}},
+	{`\d+`, []string{"0", "7", "42", "007", "9223372036854775807", "9223372036854775808"}, false},
+	{`[0-9]+`, []string{"10", "0042"}, false},
+	{`-?\d+`, []string{"-7", "7", "-0", "-99999999999999999999"}, false},
+	{`[-+]?\d+`, []string{"+5", "-5", "5", "+007"}, false},
+	{`[+-]\d+`, []string{"+1", "-1"}, false},
+	{`\d{1,3}`, []string{"1", "12", "255"}, false},
+	{`\d\d`, []string{"07", "42"}, false},
+	{`[0-5]\d`, []string{"07", "59"}, false},
+	{`(?:\d+)`, []string{"3"}, false},
+	{`\d+?`, []string{"8"}, false},
+	{`0|[1-9]\d*`, []string{"0", "10"}, false},
+	{`-\d+|\d+`, []string{"-3", "3"}, false},
 	// floating point numbers
-	{`\d+\.\d+`, []string{"10.50", "0.5", "1.0", "100.125", "007.250"}},
-	{`-?\d+\.\d+`, []string{"-1.5", "1.50"}},
-	{`[-+]?\d+\.\d+`, []string{"+1.5", "-0.25"}},
-	{`\d+(\.\d+)?`, []string{"12", "12.50", "0.5"}},
-	{`\d+(?:\.\d+)?`, []string{"12", "10.50"}},
-	{`\d+\.\d*`, []string{"1.", "1.50"}},
-	{`\d*\.\d+`, []string{".5", "1.50"}},
-	{`\d+|\d+\.\d+`, []string{"3", "3.50"}},
-	{`\d+\.\d+|\d+`, []string{"3", "3.50"}},
-	{`\d+e\d+`, []string{"1e5", "2e0", "1e999"}},
-	{`(?i:\d+e\d+)`, []string{"1e5", "1E5"}},
-	{`\d+[.e]\d+`, []string{"1e5", "1.50"}},
-	{`\d+(?:\.\d+)?(?:[eE][-+]?\d+)?`, []string{"1e5", "1.5e-3", "10.50", "7"}},
-	{`[-+]?[0-9]*\.?[0-9]+(?:[eE][-+]?[0-9]+)?`, []string{"1e5", ".5", "-1.50", "+7"}},
-	{`[-+]?[0-9]*\.?[0-9]+([eE][-+]?[0-9]+)?`, []string{"1e5", ".5", "-1.50", "+7"}},
-	{`\d+\.?`, []string{"1.", "10"}},
-	{`-?\d*\.\d+`, []string{"-.5", "1.50"}},
-	{`\.\d+`, []string{".5", ".50"}},
+	{`\d+\.\d+`, []string{"10.50", "0.5", "1.0", "100.125", "007.250"}, false},
+	{`-?\d+\.\d+`, []string{"-1.5", "1.50"}, false},
+	{`[-+]?\d+\.\d+`, []string{"+1.5", "-0.25"}, false},
+	{`\d+(\.\d+)?`, []string{"12", "12.50", "0.5"}, false},
+	{`\d+(?:\.\d+)?`, []string{"12", "10.50"}, false},
+	{`\d+\.\d*`, []string{"1.", "1.50"}, false},
+	{`\d*\.\d+`, []string{".5", "1.50"}, false},
+	{`\d+|\d+\.\d+`, []string{"3", "3.50"}, false},
+	{`\d+\.\d+|\d+`, []string{"3", "3.50"}, false},
+	{`\d+e\d+`, []string{"1e5", "2e0", "1e999"}, false},
+	{`(?i:\d+e\d+)`, []string{"1e5", "1E5"}, false},
+	{`\d+[.e]\d+`, []string{"1e5", "1.50"}, false},
+	{`\d+(?:\.\d+)?(?:[eE][-+]?\d+)?`, []string{"1e5", "1.5e-3", "10.50", "7"}, false},
+	{`[-+]?[0-9]*\.?[0-9]+(?:[eE][-+]?[0-9]+)?`, []string{"1e5", ".5", "-1.50", "+7"}, false},
+	{`[-+]?[0-9]*\.?[0-9]+([eE][-+]?[0-9]+)?`, []string{"1e5", ".5", "-1.50", "+7"}, false},
+	{`\d+\.?`, []string{"1.", "10"}, false},
+	{`-?\d*\.\d+`, []string{"-.5", "1.50"}, false},
+	{`\.\d+`, []string{".5", ".50"}, false},
 	// strings that look numeric at the ends of a class range, or nearly
-	{`[0-9./]+`, []string{"10.0.0.0/8", "10.50", "192.168.1.1", "1/2", "7"}},
-	{`[\d./]+`, []string{"10.0.0.0/8", "10.50", "3"}},
-	{`[./0-9]+`, []string{"10.0.0.0/8", "10.50"}},
-	{`[+,-]`, []string{"+", "-", ","}},
-	{`\d+[+,-]\d+`, []string{"1+2", "3,4", "5-6"}},
-	{`[+-9]+`, []string{"10.50", "1,5", "+7", "1/2", "42"}},
-	{`[.-9]+`, []string{"10.50", "1/2", "42"}},
-	{`[!-9]+`, []string{"10.50", "1%", "42"}},
-	{`[0-9a-f]+`, []string{"ff", "1e5", "10", "0e0"}},
-	{`0x[0-9a-f]+`, []string{"0x1f", "0x10"}},
-	{`\d+|-`, []string{"-", "5"}},
-	{`\d+\.\d+|\-`, []string{"-", "1.50"}},
-	{`\d+\.\d+\.\d+\.\d+`, []string{"10.0.0.1", "192.168.1.1"}},
-	{`-`, []string{"-"}},
-	{`[-+]`, []string{"+", "-"}},
-	{`[-0-9]`, []string{"-", "5"}},
-	{`\d+/\d+`, []string{"1/2", "10/50"}},
-	{`\d+,\d+`, []string{"1,5", "10,50"}},
-	{`\d+:\d+`, []string{"10:50", "1:05"}},
-	{`[0-9:]+`, []string{"10:50", "42"}},
-	{`\d+%`, []string{"50%"}},
-	{`\d+ms`, []string{"15ms"}},
-	{`\d+\.\d+s`, []string{"1.50s"}},
-	{`\d+\.\d+-rc\d+`, []string{"1.2-rc3", "10.50-rc1"}},
-	{`\d+-beta`, []string{"2-beta"}},
-	{`\d+\.x`, []string{"1.x"}},
-	{`-x\d+`, []string{"-x5"}},
-	{`\S+`, []string{"10.0.0.0/8", "10.50", "+", "-", "1e5", "0x1f", "abc", "GET", "42", "3.5"}},
-	{`\w+`, []string{"1e5", "0x1f", "abc", "x1", "12", "007"}},
-	{`[^ ]+`, []string{"10.50", "1e5", "+", "abc"}},
-	{`[^",]+`, []string{"10.50", "-", "abc"}},
-	{`.`, []string{"5", "+", "x", "."}},
-	{`[a-z]+`, []string{"abc", "e", "get"}},
-	{`[A-Za-z]+`, []string{"E", "e", "Zed"}},
-	{`GET|POST`, []string{"GET", "POST"}},
-	{`(?P<%N>\d+)\.\d+`, []string{"10.50", "1.5"}},
-	{`(\d+)/(\d+)`, []string{"1/2", "10/50"}},
+	{`[0-9./]+`, []string{"10.0.0.0/8", "10.50", "192.168.1.1", "1/2", "7"}, false},
+	{`[\d./]+`, []string{"10.0.0.0/8", "10.50", "3"}, false},
+	{`[./0-9]+`, []string{"10.0.0.0/8", "10.50"}, false},
+	{`[+,-]`, []string{"+", "-", ","}, false},
+	{`\d+[+,-]\d+`, []string{"1+2", "3,4", "5-6"}, false},
+	{`[+-9]+`, []string{"10.50", "1,5", "+7", "1/2", "42"}, false},
+	{`[.-9]+`, []string{"10.50", "1/2", "42"}, false},
+	{`[!-9]+`, []string{"10.50", "1%", "42"}, false},
+	{`[0-9a-f]+`, []string{"ff", "1e5", "10", "0e0"}, false},
+	{`0x[0-9a-f]+`, []string{"0x1f", "0x10"}, false},
+	{`\d+|-`, []string{"-", "5"}, true},
+	{`\d+\.\d+|\-`, []string{"-", "1.50"}, true},
+	{`\d+\.\d+\.\d+\.\d+`, []string{"10.0.0.1", "192.168.1.1"}, true},
+	{`-`, []string{"-"}, true},
+	{`[-+]`, []string{"+", "-"}, true},
+	{`[-0-9]`, []string{"-", "5"}, true},
+	{`\d+/\d+`, []string{"1/2", "10/50"}, false},
+	{`\d+,\d+`, []string{"1,5", "10,50"}, false},
+	{`\d+:\d+`, []string{"10:50", "1:05"}, false},
+	{`[0-9:]+`, []string{"10:50", "42"}, false},
+	{`\d+%`, []string{"50%"}, false},
+	{`\d+ms`, []string{"15ms"}, false},
+	{`\d+\.\d+s`, []string{"1.50s"}, false},
+	{`\d+\.\d+-rc\d+`, []string{"1.2-rc3", "10.50-rc1"}, false},
+	{`\d+-beta`, []string{"2-beta"}, false},
+	{`\d+\.x`, []string{"1.x"}, false},
+	{`-x\d+`, []string{"-x5"}, false},
+	{`\S+`, []string{"10.0.0.0/8", "10.50", "+", "-", "1e5", "0x1f", "abc", "GET", "42", "3.5"}, false},
+	{`\w+`, []string{"1e5", "0x1f", "abc", "x1", "12", "007"}, false},
+	{`[^ ]+`, []string{"10.50", "1e5", "+", "abc"}, false},
+	{`[^",]+`, []string{"10.50", "-", "abc"}, false},
+	{`.`, []string{"5", "+", "x", "."}, false},
+	{`[a-z]+`, []string{"abc", "e", "get"}, false},
+	{`[A-Za-z]+`, []string{"E", "e", "Zed"}, false},
+	{`GET|POST`, []string{"GET", "POST"}, false},
+	{`(?P<%N>\d+)\.\d+`, []string{"10.50", "1.5"}, false},
+	{`(\d+)/(\d+)`, []string{"1/2", "10/50"}, false},
 	// the shape region: only numeric characters, yet not only numbers
-	{`[0-9.]+`, []string{"1.2.3", "10.50", "192.168.1.1", "7", "."}},
-	{`[0-9eE.+-]+`, []string{"1e5", "10.50", "+", "-", "1.2.3", "e"}},
-	{`\d*`, []string{"", "7"}},
-	{`-?\d*`, []string{"-", "", "-7"}},
-	{`\d+-\d+`, []string{"1-2", "10-50"}},
-	{`\d+-\d+-\d+`, []string{"2021-03-04"}},
-	{`[0-9-]+`, []string{"2021-03-04", "-", "7", "-7"}},
-	{`\d+(?:\.\d+)*`, []string{"1.2.3", "10.50", "7"}},
-	{`\d+\.\d+\.\d+`, []string{"1.2.3"}},
-	{`\d+[+-]\d+`, []string{"1+2", "1-2"}},
-	{`[+-]?\d*\.?\d*`, []string{"", ".", "+", "1.50"}},
-	{`[-.]\d+`, []string{"-5", ".5", ".50"}},
-	{`\d+e`, []string{"1e"}},
+	{`[0-9.]+`, []string{"1.2.3", "10.50", "192.168.1.1", "7", "."}, false},
+	{`[0-9eE.+-]+`, []string{"1e5", "10.50", "+", "-", "1.2.3", "e"}, false},
+	{`\d*`, []string{"", "7"}, false},
+	{`-?\d*`, []string{"-", "", "-7"}, false},
+	{`\d+-\d+`, []string{"1-2", "10-50"}, false},
+	{`\d+-\d+-\d+`, []string{"2021-03-04"}, false},
+	{`[0-9-]+`, []string{"2021-03-04", "-", "7", "-7"}, false},
+	{`\d+(?:\.\d+)*`, []string{"1.2.3", "10.50", "7"}, false},
+	{`\d+\.\d+\.\d+`, []string{"1.2.3"}, true},
+	{`\d+[+-]\d+`, []string{"1+2", "1-2"}, false},
+	{`[+-]?\d*\.?\d*`, []string{"", ".", "+", "1.50"}, false},
+	{`[-.]\d+`, []string{"-5", ".5", ".50"}, false},
+	{`\d+e`, []string{"1e"}, false},
 	// the under region: only numbers, typed String by a syntactic inference
-	{`\d`, []string{"5", "0"}},
-	{`[0-9]`, []string{"5"}},
-	{`[0-7]`, []string{"5"}},
-	{`1|2`, []string{"1", "2"}},
-	{`\d+\b`, []string{"007", "42"}},
-	{`\b\d+`, []string{"007", "42"}},
-	{`\b\d+\.\d+`, []string{"10.50"}},
-	{`\d+(?:|\.\d+)`, []string{"10.50", "7"}},
+	{`\d`, []string{"5", "0"}, false},
+	{`[0-9]`, []string{"5"}, false},
+	{`[0-7]`, []string{"5"}, false},
+	{`1|2`, []string{"1", "2"}, false},
+	{`\d+\b`, []string{"007", "42"}, false},
+	{`\b\d+`, []string{"007", "42"}, false},
+	{`\b\d+\.\d+`, []string{"10.50"}, false},
+	{`\d+(?:|\.\d+)`, []string{"10.50", "7"}, false},
 }
 
 // ---- a random grammar of groups ----
@@ -338,9 +342,10 @@ func drawGroup(r *vlib.Rand, region string, fresh func() string) RichGroup {
 	for tries := 0; ; tries++ {
 		var body string
 		var cur []string
+		asMain := false
 		if r.Chance(80) || tries > 40 {
 			k := vlib.Pick(r, richGroupKinds)
-			body, cur = k.Re, k.Vals
+			body, cur, asMain = k.Re, k.Vals, k.Main
 			for strings.Contains(body, "%N") {
 				body = strings.Replace(body, "%N", fresh(), 1)
 			}
@@ -359,7 +364,7 @@ func drawGroup(r *vlib.Rand, region string, fresh func() string) RichGroup {
 		ok := true
 		for i, sp := range specs {
 			if i == 0 {
-				ok = ok && sp.Region() == region
+				ok = ok && (sp.Region() == region || (asMain && region == RegionMain))
 			} else if nested[i] && sp.Region() != RegionMain && region == RegionMain {
 				ok = false
 			}
